@@ -24,6 +24,9 @@ type slowCase struct {
 	Active bool   `json:"active"`
 	EndBy  string `json:"end_by"` // close | linktest
 	Sends  int    `json:"sends"`  // reply-expected sends waiting when the generation ends
+	// Stalled: no slow handler; instead the peer has stopped reading (receive window closed, nobody
+	// mid-write) when Close() is called, and the data write timeout (5 s) is far above "promptly"
+	Stalled bool `json:"stalled_peer,omitempty"`
 }
 
 const (
@@ -120,12 +123,76 @@ func runSlow(t *testing.T, sc slowCase, onLeak func(string)) (failKey, failDesc,
 	return
 }
 
+// runStalled: the peer has stopped reading; reply-expected sends wait (their primaries went out
+// before); the application closes. Whatever the library still tries to write on the way out (its
+// farewell), the waiting sends are released promptly — not after the data write timeout.
+func runStalled(t *testing.T, sc slowCase, onLeak func(string)) (failKey, failDesc, harness string) {
+	const stalledWT = 5 * time.Second
+	e2.Run(t, func(w *e2.World) {
+		w.OnLeak = onLeak
+		bad := func(key, f string, a ...any) {
+			if failKey == "" {
+				failKey, failDesc = key, fmt.Sprintf("%+v: ", sc)+fmt.Sprintf(f, a...)
+			}
+		}
+		o := e2.Opts{Active: sc.Active, Conn: []hsms.ConnOption{hsms.WithSessionID(0x0101), hsms.WithT3(slowT3), hsms.WithT5(time.Second), hsms.WithT6(time.Second), hsms.WithT7(time.Hour), hsms.WithT8(time.Hour),
+			hsms.WithCloseTimeout(10 * time.Second), hsms.WithWriteTimeout(stalledWT), hsms.WithReconnectBackoff(time.Hour, 1.0)}}
+		w.NewConn(o)
+		if err := w.Establish(o); err != nil {
+			harness = "establish: " + err.Error()
+			return
+		}
+		w.Read()
+		type res struct {
+			call *e2.Call
+			err  error
+		}
+		var sends []*res
+		for i := 0; i < sc.Sends; i++ {
+			r := &res{}
+			r.call = w.Go(func() { _, r.err = w.C.SendDataMessage(context.Background(), 1, byte(2*i+1), true, secs2.A("q")) })
+			sends = append(sends, r)
+		}
+		w.Settle()
+		if n := len(w.Read()); n != sc.Sends {
+			harness = fmt.Sprintf("%d primaries on the wire, want %d", n, sc.Sends)
+			return
+		}
+		w.Peer.Stall()
+		w.Advance(100 * time.Millisecond)
+		tEnd := w.Now()
+		closeCall := w.Go(func() { _ = w.C.Close() })
+		w.Advance(slowPrompt)
+		for i, r := range sends {
+			if !r.call.Done() {
+				bad("stale-waiter:stalled-peer:close", "send %d still waits %v after Close() was called on a link whose peer has stopped reading (nobody was mid-write; data write timeout %v, T3 %v)", i, w.Now()-tEnd, stalledWT, slowT3)
+				return
+			}
+			if r.err == nil || !(errors.Is(r.err, hsms.ErrConnClosed) || errors.Is(r.err, hsms.ErrNotSelectedState)) {
+				bad("waiter-error:stalled-peer:close", "send %d returned %v, want the connection-closed error", i, r.err)
+				return
+			}
+		}
+		w.Advance(time.Second)
+		if !closeCall.Done() {
+			bad("close-blocked:stalled-peer", "Close() has not returned %v after it was called (peer not reading, nobody mid-write, data write timeout %v)", w.Now()-tEnd, stalledWT)
+		}
+		w.Advance(stalledWT)
+	})
+	return
+}
+
 func oneSlow(c *vfw.Ctx, t *testing.T, sc slowCase) {
 	onLeak := func(stacks string) {
 		c.Violate("goroutine-leak", fmt.Sprintf("%+v: library goroutines alive after Close:\n%s", sc, stacks[:min(len(stacks), 1500)]), sc)
 		c.Abort("goroutine leak wedged the bubble")
 	}
-	k, d, h := runSlow(t, sc, onLeak)
+	k, d, h := "", "", ""
+	if sc.Stalled {
+		k, d, h = runStalled(t, sc, onLeak)
+	} else {
+		k, d, h = runSlow(t, sc, onLeak)
+	}
 	c.Case(true)
 	c.Add("slow_handler_executions", 1)
 	switch {
@@ -134,7 +201,7 @@ func oneSlow(c *vfw.Ctx, t *testing.T, sc slowCase) {
 	case k != "":
 		c.Violate(k, d, sc)
 	default:
-		c.Outcome(fmt.Sprintf("slow-handler:%s:sends=%d:released-at-generation-end", sc.EndBy, sc.Sends))
+		c.Outcome(fmt.Sprintf("slow-handler:%s:stalled=%v:sends=%d:released-at-generation-end", sc.EndBy, sc.Stalled, sc.Sends))
 	}
 }
 
@@ -147,6 +214,12 @@ func partSlow(c *vfw.Ctx, t *testing.T) {
 				}
 				oneSlow(c, t, slowCase{Slow: true, Active: active, EndBy: end, Sends: n})
 			}
+		}
+		for _, n := range []int{1, 2} {
+			if !c.Next() {
+				continue
+			}
+			oneSlow(c, t, slowCase{Slow: true, Active: active, EndBy: "close", Sends: n, Stalled: true})
 		}
 	}
 }
